@@ -435,6 +435,13 @@ def mon_C17r(run):
             if bool(run.consf(c["x"].reshape(1, -1))[0]):
                 run.v("C17", "a point violating the non-box constraint was handed on for evaluation", "evaluated-infeasible/%s" % c["phase"], (c["k"], c["x"].tolist()))
                 break
+    # ... and nothing outside the user's hard box (a candidate that passed the filter in internal coordinates is
+    # evaluated at its image in the user's coordinates)
+    if getattr(run, "lb", None) is not None:
+        for c in run.calls:
+            if np.any(c["x"] < run.lb) or np.any(c["x"] > run.ub) or np.any(np.isnan(c["x"])):
+                run.v("C17", "a point outside the hard box was handed on for evaluation", "evaluated-outside-box/%s" % c["phase"], (c["k"], c["x"].tolist()))
+                break
     if run.mode != "det" or run.script.get("second") is not None:
         return
     cnt = collections.Counter(c["x"].tobytes() for c in run.calls)
